@@ -134,12 +134,14 @@ func (fx *FX) computeLabels() {
 		return ls.val[v]
 	}
 	changed := true
-	errT := types.Universe.Lookup("error").Type()
+	errT, _ := types.Universe.Lookup("error").Type().(*types.Named)
 	set := func(v ssa.Value, l label) {
 		// values of type error are clean: every construction of an error text in the unit carries its own
 		// taint:error obligation, and library errors are assumed not to embed caller secrets
-		if v != nil && types.Identical(v.Type(), errT) {
-			return
+		if v != nil {
+			if n, ok := v.Type().(*types.Named); ok && n == errT {
+				return
+			}
 		}
 		l = l.join(label{})
 		if ls.val[v] != ls.val[v].join(l) {
